@@ -496,9 +496,11 @@ def pop_guard(ctx):
             key = "%s::%s::while %s" % (f.module.rel, f.qual, norm(lp.test)[:70])
             where = "%s:%d" % (f.module.rel, lp.lineno)
             verdict, why = _loop_guarded(cfg, f, lp, ctx.ce)
-            r.check("C03.5", verdict, key, where,
-                    "loop pops the stack of open elements without a dominating scope test / sentinel: it can pop the "
-                    "root and raise IndexError (%s)" % why, {"loop": norm(lp.test)}, detail={"guard": why})
+            msg = ("loop pops the stack of open elements without a dominating scope test / sentinel: it can pop the "
+                   "root and raise IndexError (%s)" % why)
+            # `while True:` whose exit test is a break inside the body: the guard is not in the loop header, the shape is not read
+            header_less = isinstance(lp.test, ast.Constant) and any(isinstance(b, ast.Break) for b in ast.walk(lp))
+            r.idiom("C03.5", verdict, key, where, msg, wrong=[(not verdict and not header_less, msg)], data={"loop": norm(lp.test)}, detail={"guard": why})
     # deep indexes
     for f in funcs:
         cfg = None
